@@ -113,36 +113,43 @@ def f32Overflow (v : Rat) : Bool :=
   let lim : Rat := ((2 ^ 128 - 2 ^ 103 : Nat) : Rat)
   v ≥ lim || v ≤ -lim
 
-def parseFloat (s : List Char) : Option Rat :=
-  let (neg, s) := stripSign s
-  let ip := s.takeWhile Char.isDigit
-  let s := s.dropWhile Char.isDigit
-  let (fp, s) := match s with
-    | '.' :: r => (r.takeWhile Char.isDigit, r.dropWhile Char.isDigit)
-    | _ => ([], s)
-  if ip.isEmpty && fp.isEmpty then none
-  else
-    let n := natOf (ip ++ fp)
-    let mant : Rat := ((n : Nat) : Rat) / ((10 ^ fp.length : Nat) : Rat)
-    let mant := if neg then -mant else mant
-    match s with
-    | [] => if f32Overflow mant then none else some mant
-    | e :: r =>
-      if e == 'e' || e == 'E' then
-        let (eneg, r) := stripSign r
-        let ed := r.takeWhile Char.isDigit
-        let r := r.dropWhile Char.isDigit
-        if ed.isEmpty || !r.isEmpty then none
+/-- the optional fraction: "." digits* -/
+def fracPart (s : List Char) : List Char × List Char :=
+  match s with
+  | '.' :: r => (r.takeWhile Char.isDigit, r.dropWhile Char.isDigit)
+  | _ => ([], s)
+
+/-- the optional exponent and the end of the string; `n` = the mantissa's digits as a number -/
+def expPart (n ipLen fpLen : Nat) (mant : Rat) (s : List Char) : Option Rat :=
+  match s with
+  | [] => if f32Overflow mant then none else some mant
+  | e :: r =>
+    if e == 'e' || e == 'E' then
+      let eneg := (stripSign r).1
+      let ed := (stripSign r).2.takeWhile Char.isDigit
+      let r' := (stripSign r).2.dropWhile Char.isDigit
+      if ed.isEmpty || !r'.isEmpty then none
+      else
+        let ex := natOf ed
+        if n == 0 then some 0
+        -- far outside float32: decided without computing the power (n ≥ 1 has ≤ ipLen+fpLen digits)
+        else if !eneg && ex > fpLen + 60 then none
+        else if eneg && ex > ipLen + 60 then some 0
         else
-          let ex := natOf ed
-          if n == 0 then some 0
-          -- far outside float32: decided without computing the power (n ≥ 1 has ≤ |ip|+|fp| digits)
-          else if !eneg && ex > fp.length + 60 then none
-          else if eneg && ex > ip.length + 60 then some 0
-          else
-            let v := mant * pow10 eneg ex
-            if f32Overflow v then none else some v
-      else none
+          let v := mant * pow10 eneg ex
+          if f32Overflow v then none else some v
+    else none
+
+def parseFloat (s : List Char) : Option Rat :=
+  let neg := (stripSign s).1
+  let s1 := (stripSign s).2
+  let ip := s1.takeWhile Char.isDigit
+  let fs := fracPart (s1.dropWhile Char.isDigit)
+  if ip.isEmpty && fs.1.isEmpty then none
+  else
+    let n := natOf (ip ++ fs.1)
+    let mant : Rat := ((n : Nat) : Rat) / ((10 ^ fs.1.length : Nat) : Rat)
+    expPart n ip.length fs.1.length (if neg then -mant else mant) fs.2
 
 /-- `parsePoints(dataPoints, nil, isEllipticalArc)` -/
 def parsePoints (arc : Bool) (s : List Char) : Except Err (List Rat) :=
@@ -267,6 +274,16 @@ def arcLoop (rel : Bool) : St → List ArcArgs → St × List Op
     else
       let res := arcLoop rel { st with cur := e } r
       (res.1, Op.arc g.rx g.ry g.rot (g.large != 0) (g.sweep != 0) e :: res.2)
+
+/-- `findEllipseCenter`'s radius handling, in the frame rotated by −φ where the half chord is (x1', y1'):
+    the x axis is scaled by rb/ra, `midlenSq = (x1'·rb/ra)² + y1'²`; when `rb² < midlenSq` the requested
+    ellipse does not reach the end point and the radii become `(ra·nrb/rb, nrb)` with `nrb = sqrt(midlenSq)`
+    (`sq` = the value math.Sqrt returned).  The result is written back to `points[0], points[1]`, the slot
+    `addArc(points, …)` draws the cubics with: centre and curve use the same scaled radii. -/
+def scaleRadii (ra rb x1p y1p sq : Rat) : Rat × Rat :=
+  let midX := x1p * (rb / ra)
+  let midlenSq := midX * midX + y1p * y1p
+  if rb * rb < midlenSq then (if ra == rb then sq else ra * sq / rb, sq) else (ra, rb)
 
 /-- `addSeg` after `getPoints`: `op` is the command byte, `pts` the parsed numbers -/
 def addSeg (st : St) (op : Char) (pts : List Rat) : Except Err (St × List Op) :=
